@@ -3,7 +3,7 @@ package main
 func init() {
 	checks = append(checks, &CheckSpec{
 		Prop:    "C07",
-		Harness: []string{"c01_chain.go", "c16_keyid.go", "authz_gen.go", "c10_hostile.go", "c07_wire.go"},
+		Harness: hb("c07_wire.go"),
 		Entries: []EntrySpec{
 			{Pkg: "biscuit", Func: "VerifC07Wire", Quick: p("namelen", 1, "blkfocus", 0, "symterms", 1), Thorough: p("namelen", 4, "blkfocus", 0, "symterms", 0), Covers: []string{"decoded", "roundtrip"}},
 			{Pkg: "biscuit", Func: "VerifC07Wire", Quick: nil, Thorough: p("namelen", 1, "blkfocus", 0, "symterms", 1), Covers: []string{"decoded", "roundtrip"}},
